@@ -67,6 +67,10 @@ pub trait Dom: 'static {
     fn fn_name() -> &'static str;
     fn pool_full() -> Vec<Self::V>;
     fn pool_small() -> Vec<Self::V>;
+    /// pool_full plus the arguments at which some function has a branch point, a pole or a range limit
+    fn pool_critical() -> Vec<Self::V> {
+        Self::pool_full()
+    }
     fn default_at() -> Self::V;
     fn is_finite(v: &Self::V) -> bool;
     /// Display form that the library user would feed back (C19 round trip)
@@ -176,6 +180,11 @@ impl Dom for F64 {
     fn pool_small() -> Vec<f64> {
         vec![7.0, -0.0, f64::INFINITY, f64::NAN]
     }
+    fn pool_critical() -> Vec<f64> {
+        let mut p = Self::pool_full();
+        p.extend(critical_f64());
+        p
+    }
     fn default_at() -> f64 {
         7.0
     }
@@ -185,6 +194,61 @@ impl Dom for F64 {
     fn display(v: &f64) -> String {
         format!("{}", v)
     }
+}
+
+
+/// arguments at which some function has a branch point, a pole, a sign change or a range limit
+pub fn critical_f64() -> Vec<f64> {
+    let inv_e = -(-1.0f64).exp();
+    let mut v = vec![
+        inv_e,
+        f64::from_bits(inv_e.to_bits() + 1),
+        f64::from_bits(inv_e.to_bits() - 1),
+        -0.36787944117144,
+        -0.367879441171443,
+        (-1.0f64).exp(),
+        std::f64::consts::E,
+        std::f64::consts::PI,
+        -std::f64::consts::PI,
+        std::f64::consts::FRAC_PI_2,
+        -std::f64::consts::FRAC_PI_2,
+        std::f64::consts::FRAC_PI_4,
+        2.0 * std::f64::consts::PI,
+        1.0 - f64::EPSILON / 2.0,
+        1.0 + f64::EPSILON,
+        -1.0 + f64::EPSILON / 2.0,
+        -1.0 - f64::EPSILON,
+        2.0,
+        -2.0,
+        1.5,
+        -0.5,
+        -1.5,
+        -170.5,
+        170.6,
+        171.7,
+        -171.5,
+        143.0,
+        150.0,
+        150.5,
+        -150.5,
+        709.0,
+        709.782712893384,
+        710.0,
+        -745.0,
+        -746.0,
+        1023.0,
+        1024.0,
+        -1074.0,
+        -1075.0,
+        1e-300,
+        1e300,
+        9007199254740993.0,
+        9223372036854775807.0,
+        -9223372036854775808.0,
+        4294967296.0,
+    ];
+    v.dedup();
+    v
 }
 
 // ------------------------------------------------------------------ i64
@@ -343,6 +407,59 @@ impl Dom for Dec {
         let d = |s: &str| Decimal::from_str(s).unwrap();
         vec![d("7"), d("-0.3"), Decimal::MAX, d("0.0000000000000000000000000001")]
     }
+    fn pool_critical() -> Vec<Decimal> {
+        let d = |s: &str| Decimal::from_str(s).unwrap();
+        let mut p = Self::pool_full();
+        for t in [
+            "-0.3678794411714423215955237702",
+            "-0.3678794411714423215955237701",
+            "-0.3678794411714423215955237703",
+            "-0.3678794411714423215",
+            "-0.36787944117144232",
+            "-0.36787944117144233",
+            "-0.36787944117144",
+            "-0.367879441171443",
+            "0.3678794411714423215955237702",
+            "2.7182818284590452353602874714",
+            "3.1415926535897932384626433833",
+            "-3.1415926535897932384626433833",
+            "1.5707963267948966192313216916",
+            "-1.5707963267948966192313216916",
+            "0.7853981633974483096156608458",
+            "6.2831853071795864769252867666",
+            "0.9999999999999999999999999999",
+            "-0.9999999999999999999999999999",
+            "-1.0000000000000000000000000001",
+            "2",
+            "-2",
+            "1.5",
+            "-0.5",
+            "-1.5",
+            "26.5",
+            "27.5",
+            "-27.5",
+            "65",
+            "66",
+            "66.5",
+            "67",
+            "-66",
+            "-67",
+            "95",
+            "96",
+            "-96",
+            "143",
+            "150.5",
+            "-150.5",
+            "4294967296",
+            "9223372036854775807",
+            "18446744073709551616",
+            "79228162514264337593543950334",
+            "0.0000000000000000000000000002",
+        ] {
+            p.push(d(t));
+        }
+        p
+    }
     fn default_at() -> Decimal {
         Decimal::from(7)
     }
@@ -420,6 +537,18 @@ impl Dom for Cpx {
             C::new(f64::NAN, 0.0),
             C::new(f64::INFINITY, f64::INFINITY),
         ]
+    }
+    fn pool_critical() -> Vec<C> {
+        let mut p = Self::pool_full();
+        for x in critical_f64() {
+            p.push(C::new(x, 0.0));
+            p.push(C::new(x, -0.0));
+            p.push(C::new(0.0, x));
+        }
+        for (a, b) in [(1.0, 0.0), (-1.0, 0.0), (0.0, 1.0), (0.0, -1.0), (1.0, -0.0), (-1.0, 1e-300), (2.0, 0.0), (-2.0, -0.0), (0.0, 2.0), (0.0, -2.0), (1e-300, 1.0), (-1e-300, -1.0)] {
+            p.push(C::new(a, b));
+        }
+        p
     }
     fn default_at() -> C {
         C::new(7.0, 0.0)
@@ -535,6 +664,14 @@ impl Dom for Num {
     fn pool_small() -> Vec<Number> {
         use Number::*;
         vec![Integer(7), Integer(i64::MIN), Float(2.5), Float(f64::NAN)]
+    }
+    fn pool_critical() -> Vec<Number> {
+        let mut p = Self::pool_full();
+        p.extend(critical_f64().into_iter().map(Number::Float));
+        for i in [2, -2, 3, 63, 64, 65, -63, -64, 170, 171, -171, 143, 150, 709, 710, -745, 1023, 1024, -1074, -1075, 9007199254740993, 9007199254740992, i64::MIN + 1, i64::MAX - 1] {
+            p.push(Number::Integer(i));
+        }
+        p
     }
     fn default_at() -> Number {
         Number::Integer(7)
